@@ -64,6 +64,7 @@ def shards(tier, seed):
             for grp in groups:
                 out.append(dict(name="model/t%d/rc%d/q%s" % (ts, rc, "".join(map(str, grp))), kind="model", ts=ts, rc=rc, firsts=list(grp),
                                 numba_threads=16, weight=1000 * len(grp)))
+    out.append(dict(name="long_queries", kind="long", numba_threads=16, weight=900))
     out.append(dict(name="nearest", kind="nearest", numba_threads=4, weight=300))
     out.append(dict(name="annotate", kind="annotate", numba_threads=4, weight=500))
     return out
@@ -255,6 +256,40 @@ def run_model(rec, sh, tier, seed):
                     schedules_for_3_queries=len(schedules(3, tier, True)), poisons=[repr(p) for p in POISONS]))
 
 
+def run_long(rec, tier, seed):
+    """Long queries (the scratch size grows with threads x Q_max^3): results must not depend on the thread count or on the longest co-processed query."""
+    import numba
+    from tangermeme.tools import tomtom as TT
+
+    def pat(L, k):
+        return motif([((i * (k + 2) + k + (i // 3)) % len(PAL)) for i in range(L)])
+    qlens = [12, 8, 30, 28, 3]
+    Qs = [pat(L, k) for k, L in enumerate(qlens)]
+    Ts = [pat(L, k + 3) for k, L in enumerate([5, 12, 30, 20, 9, 28])] + [Qs[2], Qs[0]]
+    alone = [torch.stack(list(TT.tomtom([Q], Ts, n_jobs=1))).numpy()[:, 0] for Q in Qs]
+    for rc in (True, False):
+        if not rc:
+            alone = [torch.stack(list(TT.tomtom([Q], Ts, n_jobs=1, reverse_complement=False))).numpy()[:, 0] for Q in Qs]
+        for subset in ([0, 1, 2, 3, 4], [2, 0], [1, 4, 0], [3, 2, 1]):
+            for nj in (1, 2, 5, 16):
+                st, res = call(TT.tomtom, [Qs[i] for i in subset], Ts, n_jobs=nj, reverse_complement=rc)
+                rec.case(1, 1)
+                rec.count("traces_validated_against_impl")
+                case = dict(fn="tomtom", query_lengths=[qlens[i] for i in subset], n_jobs=nj, reverse_complement=rc, generator="pat(L,k)")
+                if st != "ok":
+                    rec.violation("tomtom:raises", case, observed=res)
+                    continue
+                got = torch.stack(list(res)).numpy()
+                for pos, i in enumerate(subset):
+                    if not same(got[:, pos], alone[i]):
+                        rec.violation("tomtom:long_query_result_depends_on_threads_or_co_queries", dict(case, query_position=pos),
+                                      expected=alone[i][0][:4], observed=got[:, pos][0][:4])
+                        break
+                rec.observe(subset, nj, rc)
+    numba.set_num_threads(16)
+    rec.sample(dict(kind="long", query_lengths=qlens, n_jobs=[1, 2, 5, 16]))
+
+
 def run_nearest(rec, tier, seed):
     from tangermeme.tools import tomtom as TT
     pool = [motif(q) for q in QUERY_POOL]
@@ -349,6 +384,8 @@ def run_shard(sh, tier, seed):
     rec = Recorder(PID, sh["name"])
     if sh["kind"] == "model":
         run_model(rec, sh, tier, seed)
+    elif sh["kind"] == "long":
+        run_long(rec, tier, seed)
     elif sh["kind"] == "nearest":
         run_nearest(rec, tier, seed)
     else:
